@@ -84,7 +84,10 @@ def build_model(kind, compiled):
         ('My Sheet', {'A1': {'form': 'n', 'v': 3}, 'A2': {'form': 'n', 'v': 4},
                       'B1': {'form': 'f', 'f': 'SUM(A1:A2)*Sheet1!A1'}}),
     ]
-    names = {'nm': 'Sheet1!$A$1', 'rng': 'Sheet1!$A$1:$A$2'}
+    # fnm: a name for a FORMULA cell (formulae[name] then aliases
+    # formulae[address])
+    names = {'nm': 'Sheet1!$A$1', 'rng': 'Sheet1!$A$1:$A$2',
+             'fnm': 'Sheet1!$B$1'}
     path = os.path.join(tmpdir(), 'src_%d.xlsx' % os.getpid())
     if not os.path.exists(path):
         with open(path, 'wb') as fp:
@@ -224,6 +227,17 @@ def check_state(kind, compiled, hist, ctx):
                      'equal', 'differs:' + d[0], nontriv, d[1])
     ctx.check(key0 + '#persist-pure', explore.fingerprint(model), fp0,
               tags + ['oracle:persist-pure'], inputs, False)
+    # the original keeps working after it was persisted (no recompilation):
+    # only judged when its code had been built by then
+    compiled_now = compiled or any(o[0] == 'compile' for o in hist)
+    if compiled_now:
+        evp = lib.Evaluator(model)
+        broken = [a for a in EVAL_CELLS
+                  if lib.observe(evp.evaluate, a).startswith('raise:')
+                  and a != S1 + 'B3']
+        ctx.check(key0 + '#original-still-evaluates',
+                  'raising:%s' % broken, 'raising:[]',
+                  tags + ['oracle:persist-pure'], inputs, nontriv)
     # after compilation every cell evaluates alike
     c = lib.observe(model.build_code)
     if c != 'blank':
